@@ -42,12 +42,21 @@ structure SaveHM where
   motionBlockingNoLeaves : Option Longs
 deriving Repr
 
+/-- `save.Chunk` as far as `ChunkToSave` / `ChunkFromSave` touch it, plus what they leave alone: the other entries of
+the `Heightmaps` map (e.g. WORLD_SURFACE_IGNORE_SNOW) and, as one opaque value, every field `ChunkToSave` never
+writes (XPos, ZPos, DataVersion, block entities, ticks, structures, unknown tags …) -/
 structure SaveChunk (DS DB : Type) where
   secs : List (SaveSec DS DB)
   hm : SaveHM
+  otherHM : List (Bytes × Longs) := []
   status : Bytes
   ypos : BitVec 32
+  untouched : Bytes := []
 deriving Repr
+
+/-- a zero `save.Chunk` with `YPos` set -/
+def SaveChunk.fresh {DS DB} (ypos : BitVec 32) : SaveChunk DS DB :=
+  { secs := [], hm := ⟨none, none, none, none, none, none⟩, status := [], ypos := ypos }
 
 structure Registry (DS DB : Type) where
   descS : Int → Res DS
@@ -117,7 +126,7 @@ def countNonAirP (isAir : Int → Bool) (c : PCont) : Nat → Res (BitVec 16)
       | _ => .panic
     | e => e
 
-/-- `ChunkToSave(c, dst)` for a `dst` with `YPos = ypos` -/
+/-- the section loop of `ChunkToSave` for a `dst` with `YPos = ypos` -/
 def toSaveSecs {DS DB} (R : Registry DS DB) (gbS gbB : Int) (ypos : BitVec 32) :
     Nat → List WSec → Res (List (SaveSec DS DB))
   | _, [] => .ok []
@@ -135,13 +144,18 @@ def toSaveSecs {DS DB} (R : Registry DS DB) (gbS gbB : Int) (ypos : BitVec 32) :
     | .err => .err
     | .panic => .panic
 
-def chunkToSave {DS DB} (R : Registry DS DB) (gbS gbB : Int) (ypos : BitVec 32) (c : Chunk) : Res (SaveChunk DS DB) :=
-  match toSaveSecs R gbS gbB ypos 0 c.secs with
+/-- `ChunkToSave(c, dst)`: what `dst` holds afterwards.  A fresh section array replaces `dst.Sections` (nothing of the
+old sections — light, palettes, data — survives, however many there were), the six named height maps and the
+status are overwritten; `YPos` is read, not written; the other `Heightmaps` entries and every other field stay.
+On an error `dst` is left as it was. -/
+def chunkToSave {DS DB} (R : Registry DS DB) (gbS gbB : Int) (dst : SaveChunk DS DB) (c : Chunk) : Res (SaveChunk DS DB) :=
+  match toSaveSecs R gbS gbB dst.ypos 0 c.secs with
   | .ok secs =>
-    .ok { secs := secs,
+    .ok { dst with
+          secs := secs,
           hm := ⟨some c.hm.worldSurfaceWG.data, some c.hm.worldSurface.data, some c.hm.oceanFloorWG.data,
                  some c.hm.oceanFloor.data, some c.hm.motionBlocking.data, some c.hm.motionBlockingNoLeaves.data⟩,
-          status := c.status, ypos := ypos }
+          status := c.status }
   | .err => .err
   | .panic => .panic
 
